@@ -1500,7 +1500,7 @@ class Server:
                 break
         else:
             connection.response("503", ["this server started in ipv6 mode"])
-            return False
+            return True
 
         nums = tuple(map(int, host.split("."))) + (port >> 8, port & 0xFF)
         info = [info_template.format(address=f"({','.join(map(str, nums))})")]
@@ -1527,7 +1527,7 @@ class Server:
         if rest:
             code, info = "522", ["custom protocols support not implemented"]
             connection.response(code, info)
-            return False
+            return True
         if not connection.future.passive_server.done():
             coro = self._start_passive_server(connection, handler)
             try:
